@@ -460,7 +460,7 @@ fn find_linearization(init: &St, progs: &[Vec<Op>], observed: &[Vec<String>], fi
             return false;
         }
         *budget -= 1;
-        if *budget % 256 == 0 && started.elapsed().as_secs_f64() > 4.0 {
+        if *budget % 256 == 0 && started.elapsed().as_secs_f64() > 1.0 {
             *budget = 0;
             return false;
         }
@@ -492,7 +492,7 @@ fn find_linearization(init: &St, progs: &[Vec<Op>], observed: &[Vec<String>], fi
         St::L(l) => l.len() > 100,
         St::M(m) => m.len() > 100,
     };
-    let mut budget = if big { 20_000u64 } else { 2_000_000u64 };
+    let mut budget = if big { 20_000u64 } else { 300_000u64 };
     if go(init, &mut pos, progs, observed, fin, &mut order, &mut dead, &mut budget, std::time::Instant::now()) {
         Ok(Some(order))
     } else if budget == 0 {
